@@ -16,7 +16,6 @@ CONSTANTS
   MaxStall = 2
   MaxSweep = 3
   MaxLeave = 1
-  MaxPubB = 1
+  MaxPubB = 2
 INVARIANTS Quiescent QueueBound WholeUnits
 VIEW GView
-ACTION_CONSTRAINT Emit
